@@ -22,7 +22,7 @@ BLOCK = 400
 STREAM_ORDER = ['ops', 'wall']
 RULE = ('seeded sequences (<=40) of start/stop/speed=/time=/read/execute_once on a real SimulatedClock whose '
         'wall-time source is scripted by the simulator (increments drawn from {0,1/64,1/4,1,3,64,4096}, in mode 2 '
-        'also between the reads inside one operation); a second interpreter runs on a SynchronizedClock that follows the first and is stepped now and then, events (with and without delay) are queued on either interpreter between steps, and a SynchronizedClock on that second interpreter must show its last step time; non-trivial = the run read the clock while it was running '
+        'also between the reads inside one operation); a second interpreter runs on a SynchronizedClock that follows the first and is stepped now and then, events (with and without delay) are queued on either interpreter between steps, the statechart sends itself an internal event that the next step finds due, and a SynchronizedClock on that second interpreter must show its last step time; non-trivial = the run read the clock while it was running '
         'after a speed change or an assignment and saw at least one rejected assignment or a speed-0 period; '
         'distinct = distinct operation sequence (kind+argument, mode)')
 COMPONENTS = {'real': ['sismic.clock.SimulatedClock', 'sismic.clock.SynchronizedClock', 'sismic.interpreter.Interpreter'],
@@ -58,7 +58,8 @@ def _chart():
     sc.add_state(CompoundState('root', initial='a'), None)
     sc.add_state(BasicState('a'), 'root')
     sc.add_state(BasicState('b'), 'root')
-    sc.add_transition(Transition('a', 'b', event='e'))
+    # leaving a sends an internal event: the next step finds it already due (and samples the clock like any other step)
+    sc.add_transition(Transition('a', 'b', event='e', action="send('ping')"))
     sc.add_transition(Transition('b', 'a', event='e'))
     # 'fin' ends the statechart; steps of a final interpreter are steps like any other (they sample the clock)
     sc.add_state(FinalState('f'), 'root')
